@@ -126,11 +126,19 @@ func (ex *Exec) beginPath(prefix []Decision) {
 	}
 	ex.ctx.ResetKnown()
 	ex.solver.Push()
+	if ex.solver2 != nil {
+		ex.solver2.Push()
+	}
 }
 
 func (ex *Exec) endPath() {
 	for ex.solver.Depth() > 0 {
 		ex.solver.Pop()
+	}
+	if ex.solver2 != nil {
+		for ex.solver2.Depth() > 0 {
+			ex.solver2.Pop()
+		}
 	}
 }
 
@@ -157,6 +165,9 @@ func (ex *Exec) addPC(t *sym.Term) {
 	}
 	ex.ps.pc = append(ex.ps.pc, t)
 	ex.solver.Assert(t)
+	if ex.solver2 != nil {
+		ex.solver2.Assert(t)
+	}
 	ex.noteConstraint(t)
 	ex.learn(t, true)
 }
@@ -520,6 +531,19 @@ func (ex *Exec) assert(cv value, label string) {
 	r, m := ex.solver.ModelWith(ex.allVars(), neg)
 	if r == sym.Unknown {
 		ex.inconclusive("solver returned unknown on assertion " + label)
+	}
+	if ex.solver2 != nil {
+		// second solver re-discharges every assertion query
+		r2 := ex.solver2.CheckWith(neg)
+		ex.Solver2Queries++
+		switch {
+		case r2 == sym.Unknown:
+			// the second solver gave up within its (short) time limit: the
+			// query stays decided by the primary solver, counted as unconfirmed
+			ex.Solver2Unknown++
+		case r2 != r:
+			ex.inconclusive(fmt.Sprintf("solvers disagree on assertion %s: %s says %s, %s says %s", label, ex.solver.Name, r, ex.solver2.Name, r2))
+		}
 	}
 	if r == sym.Unsat {
 		ex.record(Decision{'A', 0})
